@@ -122,6 +122,11 @@ func (t c18Transport) RoundTrip(req *http.Request) (*http.Response, error) {
 
 // c18Server: nsqadmin's httpServer (no listener, no router) over the scripted cluster.
 func c18Server(u *c18Cluster, lookupds, nsqds []string) *httpServer {
+	return c18ServerOn(c18Transport{u}, lookupds, nsqds)
+}
+
+// c18ServerOn: the same over any native transport (rt is only used in native replay).
+func c18ServerOn(rt http.RoundTripper, lookupds, nsqds []string) *httpServer {
 	o := &Options{
 		LogLevel:                 lg.FATAL,
 		LogPrefix:                "[nsqadmin] ",
@@ -139,7 +144,7 @@ func c18Server(u *c18Cluster, lookupds, nsqds []string) *httpServer {
 	cl := &http_api.Client{}
 	if !verifrt.Symbolic() {
 		f := reflect.ValueOf(cl).Elem().Field(0)
-		*(**http.Client)(unsafe.Pointer(f.UnsafeAddr())) = &http.Client{Transport: c18Transport{u}}
+		*(**http.Client)(unsafe.Pointer(f.UnsafeAddr())) = &http.Client{Transport: rt}
 	}
 	return &httpServer{nsqadmin: n, client: cl, ci: clusterinfo.New(n.logf, cl), basePath: "/"}
 }
